@@ -372,6 +372,60 @@ func c13Shared(c *mc.Ctx, k c13SharedCase) {
 	}
 }
 
+// ---- a rejected (ill-typed) tree must leave nothing behind ----
+
+type c13AfterCase struct {
+	Bad   int `json:"bad_tree"` // which ill-typed tree is measured/written first
+	Times int `json:"times"`    // how many times it is tried before the well-typed tree
+}
+
+// c13After: UnknownFieldsLength / WriteUnknownFields on an ill-typed tree (rejected with an error, or a panic the caller
+// recovers from), then on a well-typed tree: the second must be exact, whatever state the first left behind.
+func c13After(c *mc.Ctx, k c13AfterCase) {
+	c.Eval(1)
+	lst := gen.Small(ref.LIST, 2)
+	stc := ref.Value{T: ref.STRUCT, F: []ref.Field{{ID: 1, V: gen.Small(ref.MAP, 1)}, {ID: 2, V: gen.Small(ref.STRING, 1)}}}
+	goodL, goodS := c13Expect(1, &lst), c13Expect(2, &stc)
+	unknownType := unknownfields.UnknownField{ID: 9, Type: 5, Value: int32(1)}                         // 5 is not a Thrift type
+	wrongGoType := unknownfields.UnknownField{ID: 9, Type: ref.I32, Value: "a string in an i32 field"} // value of the wrong Go type
+	var bad []unknownfields.UnknownField
+	switch k.Bad {
+	case 0: // containers pending before the bad field at top level
+		bad = []unknownfields.UnknownField{goodL, goodS, unknownType}
+	case 1: // bad field inside a struct that follows a container
+		bad = []unknownfields.UnknownField{goodL, {ID: 3, Type: ref.STRUCT, Value: []unknownfields.UnknownField{goodS, unknownType, goodL}}, goodS}
+	case 2: // bad element inside a list of structs
+		bad = []unknownfields.UnknownField{{ID: 3, Type: ref.LIST, ValType: ref.STRUCT, Value: []unknownfields.UnknownField{{Type: ref.STRUCT, Value: []unknownfields.UnknownField{goodL, unknownType}}, {Type: ref.STRUCT, Value: []unknownfields.UnknownField{goodS}}}}, goodL}
+	case 3:
+		bad = []unknownfields.UnknownField{goodS, goodL, wrongGoType, goodS}
+	}
+	fields := []ref.Field{{ID: 1, V: lst}, {ID: 2, V: stc}, {ID: 3, V: gen.Small(ref.I64, 1)}}
+	var want []byte
+	var good []unknownfields.UnknownField
+	for i := range fields {
+		want = ref.EncodeField(want, fields[i].ID, &fields[i].V)
+		good = append(good, c13Expect(fields[i].ID, &fields[i].V))
+	}
+	for t := 0; t < k.Times; t++ {
+		mc.Try(func() { unknownfields.UnknownFieldsLength(bad) })
+		mc.Try(func() { unknownfields.WriteUnknownFields(make([]byte, 4096), bad) })
+	}
+	pi := mc.Try(func() {
+		for round := 0; round < 2; round++ {
+			n, err := unknownfields.UnknownFieldsLength(good)
+			out := make([]byte, len(want)+64)
+			w, err2 := unknownfields.WriteUnknownFields(out, good)
+			if err != nil || err2 != nil || n != len(want) || w != len(want) || !bytes.Equal(out[:w], want) {
+				c.Violate("after", "C13|after-rejected-tree", fmt.Sprintf("after %d attempt(s) on an ill-typed tree (kind %d), a well-typed tree of %d bytes: UnknownFieldsLength = (%d, %v), WriteUnknownFields = (%d, %v) (call %d)", k.Times, k.Bad, len(want), n, err, w, err2, round+1), k)
+				return
+			}
+		}
+	})
+	if pi != nil {
+		c.Violate("after", "C13|after-rejected-tree", fmt.Sprintf("after an ill-typed tree (kind %d): panic on a well-typed tree: %s at %s", k.Bad, pi.Msg, pi.Frame), k)
+	}
+}
+
 func c13Run(c *mc.Ctx) {
 	setAllocCap(64 << 20)
 	ids := []int16{1, -1, 0x7fff}
@@ -528,6 +582,16 @@ func c13Run(c *mc.Ctx) {
 		}
 	}
 	c.Done("hand-built acyclic trees sharing one list/set/map/struct value between two nodes (5 placements x 0/1/3 members), measured and written up to 3 times")
+	// state left behind by a rejected tree
+	if c.Shard == 0 {
+		for bk := 0; bk < 4; bk++ {
+			for _, times := range []int{1, 2, 5} {
+				c.Distinct("after", bk, times)
+				c13After(c, c13AfterCase{Bad: bk, Times: times})
+			}
+		}
+		c.Done("a well-typed tree measured and written right after 1/2/5 attempts on 4 ill-typed trees (unknown type tag / wrong Go type, after pending containers)")
+	}
 	// the reflect entry point
 	getHex := []string{"0800010000002a", "0b0002000000026869" + "0f00030600000002" + "00010002", "0d00040b0800000001000000016b0000002a" + "0c0005" + "02000101" + "00"}
 	for kind := range c13Carriers {
@@ -550,6 +614,10 @@ func init() {
 		Replay: func(c *mc.Ctx, sub string, raw json.RawMessage) {
 			if sub == "get" {
 				replayAs(raw, func(k c13GetCase) { c13Get(c, k) })
+				return
+			}
+			if sub == "after" {
+				replayAs(raw, func(k c13AfterCase) { c13After(c, k) })
 				return
 			}
 			if sub == "shared" {
